@@ -600,6 +600,52 @@ class _Idioms(ast.NodeTransformer):
             return _fix(ast.Assign(targets=[node.target], value=node.value, type_comment=None), node)
         return node
 
+    def visit_Match(self, node):
+        """match S: case V1 | V2: A  case _: B   ->   if S == V1 or S == V2: A  else: B     (value / or / wildcard / capture-free class patterns,
+        a subject that can be evaluated again without effect)"""
+        node = self.generic_visit(node)
+        subj = node.subject
+        if not _pure(subj):
+            return node
+        def test_of(p):
+            if isinstance(p, ast.MatchValue):
+                return ast.Compare(left=copy.deepcopy(subj), ops=[ast.Eq()], comparators=[p.value])
+            if isinstance(p, ast.MatchSingleton):
+                return ast.Compare(left=copy.deepcopy(subj), ops=[ast.Is()], comparators=[ast.Constant(p.value)])
+            if isinstance(p, ast.MatchOr):
+                ts = [test_of(q) for q in p.patterns]
+                if any(t is None or t is True for t in ts):
+                    return None
+                return ast.BoolOp(op=ast.Or(), values=ts)
+            if isinstance(p, ast.MatchAs) and p.pattern is None and p.name is None:
+                return True
+            if isinstance(p, ast.MatchClass) and not p.patterns and not p.kwd_patterns:
+                return ast.Call(func=ast.Name(id='isinstance', ctx=ast.Load()), args=[copy.deepcopy(subj), p.cls], keywords=[])
+            return None
+        arms = []
+        for c in node.cases:
+            t = test_of(c.pattern)
+            if t is None:
+                return node
+            if c.guard is not None:
+                t = c.guard if t is True else ast.BoolOp(op=ast.And(), values=[t, c.guard])
+            arms.append((t, c.body))
+        chain = []
+        for t, body in reversed(arms):
+            if t is True:
+                chain = body
+            else:
+                chain = [ast.If(test=t, body=body, orelse=chain)]
+        if not chain:
+            return node
+        if len(chain) == 1:
+            new = chain[0]
+            _fix(new, node); ast.fix_missing_locations(new)
+            return new
+        new = ast.If(test=ast.Constant(True), body=chain, orelse=[])
+        _fix(new, node); ast.fix_missing_locations(new)
+        return new
+
     def visit_If(self, node):
         node = self.generic_visit(node)
         node.test = self._unbool(node.test)
